@@ -197,9 +197,36 @@ def gen_split(rng):
     return {'unit': 'split', 'text': text, 'items': None, 'flags': ['unit-split-arbitrary']}
 
 
+def gen_long(rng):
+    """size: ONE directive that emits thousands of bytes (a fill / zero / zerountil run of 4..12 KiB, a value list of some
+    hundred items, a long string), with data behind it whose place depends on that length"""
+    cfg = {'bits': 16, 'little': rng.random() < 0.5, 'regs': ['ra', 'rb'], 'preZones': [], 'preConsts': [], 'preData': []}
+    start = rng.choice([0, 0, 3, 0x0FF0, 0x1001])
+    stmts = [{'k': 'org', 'e': ('num', start)}] if start else []
+    stmts.append({'k': 'data', 'w': 1, 'vals': [('num', 0xA1)]})
+    kind = rng.choice(['fill', 'fill', 'zero', 'zerountil', 'list', 'string'])
+    n = rng.choice([4097, 4098, 8191, 8192, 8193, 9000, rng.randint(4096, 12000)])
+    if kind == 'fill':
+        stmts.append({'k': 'fill', 'cnt': ('num', n), 'val': ('num', rng.randint(1, 255))})
+    elif kind == 'zero':
+        stmts.append({'k': 'fill', 'cnt': ('num', n), 'val': ('num', 0), 'zero': True})
+    elif kind == 'zerountil':
+        stmts.append({'k': 'zerountil', 'a': ('num', start + n)})
+    elif kind == 'list':
+        stmts.append({'k': 'data', 'w': rng.choice([1, 2, 4]), 'vals': [('num', (i * 7 + 1) % 256) for i in range(rng.randint(300, 700))]})
+    else:
+        body = ''.join(rng.choice('abcdefgh XYZ0123') for _ in range(rng.randint(600, 1500)))
+        stmts.append({'k': 'str', 'raw': body, 'term': 0, 'text': '.cstr "' + body + '"'})
+    stmts.append({'k': 'label', 'name': 'behind'})
+    stmts.append({'k': 'data', 'w': 1, 'vals': [('num', 1), ('num', 2), ('num', 3)]})
+    stmts.append({'k': 'data', 'w': 2, 'vals': [('label', 'behind')]})
+    return {'cfg': cfg, 'files': [stmts], 'start': rng.choice([0, start]), 'end': None, 'fill': rng.choice([0, 0xFF]),
+            'seed': rng.randrange(1 << 30), 'flags': ['one-directive-of-several-KiB:' + kind]}
+
+
 def generate(rng, tier):
     n = 500 if tier == 'quick' else 12000
-    return [gen_case(rng, tier) for _ in range(n)] + [gen_split(rng) for _ in range(n // 3)]
+    return [gen_case(rng, tier) for _ in range(n)] + [gen_split(rng) for _ in range(n // 3)] + [gen_long(rng) for _ in range(n // 40)]
 
 
 def judge(case, ir, mr):
